@@ -29,6 +29,237 @@ Section Text.
   Qed.
 End Text.
 
+(* ------------------------------------------------------------------ *)
+(* the edited classic file parses to the edited record: column-65 fields (all base parameters but the
+   yield fraction, all per-stage parameters), one override entry *)
+Lemma ln_set_line lines k l m :
+  ln (set_line lines k l) m = if Nat.eqb m k then option_map (fun _ => l) (ln lines m) else ln lines m.
+Proof.
+  unfold ln, set_line. rewrite nth_error_mapi. destruct (nth_error lines m), (Nat.eqb m k); reflexivity.
+Qed.
+
+Section Parse.
+  Context {T : Type} {NT : Num T}.
+
+  Definition single_base (p : pname) (v : T) : cropow T := {| ow_base := [(p, v)]; ow_stage := []; ow_part := [] |}.
+  Definition single_stage (p : pname) (i : nat) (v : T) : cropow T :=
+    {| ow_base := []; ow_stage := [(p, Z.of_nat i, v)]; ow_part := [] |}.
+
+  Lemma f65_len (l : lstr) (v : T) : f65 l = Some v -> (65 <= List.length l)%nat.
+  Proof.
+    unfold f65, from. destruct (Nat.leb 65 (List.length l)) eqn:E; [|discriminate]. intros _. now apply Nat.leb_le.
+  Qed.
+
+  Ltac eqbs :=
+    repeat match goal with
+           | |- context [Nat.eqb ?a ?b] =>
+               first [ replace (Nat.eqb a b) with false by (symmetry; apply Nat.eqb_neq; lia)
+                     | replace (Nat.eqb a b) with true by (symmetry; apply Nat.eqb_eq; lia) ]
+           end.
+
+  Lemma read_stage_untouched b nk lines k l i :
+    (forall e, (e <= 12)%nat -> (19 + 13 * i + e)%nat <> k) ->
+    read_stage (T:=T) b nk (set_line lines k l) i = read_stage b nk lines i.
+  Proof.
+    intros H. unfold read_stage. rewrite !ln_set_line.
+    pose proof (H 0%nat ltac:(lia)). pose proof (H 1%nat ltac:(lia)). pose proof (H 2%nat ltac:(lia)).
+    pose proof (H 3%nat ltac:(lia)). pose proof (H 4%nat ltac:(lia)). pose proof (H 5%nat ltac:(lia)).
+    pose proof (H 6%nat ltac:(lia)). pose proof (H 7%nat ltac:(lia)). pose proof (H 8%nat ltac:(lia)).
+    pose proof (H 9%nat ltac:(lia)). pose proof (H 10%nat ltac:(lia)). pose proof (H 11%nat ltac:(lia)).
+    pose proof (H 12%nat ltac:(lia)).
+    eqbs. reflexivity.
+  Qed.
+
+  Lemma read_stages_untouched b nk lines k l n : forall i,
+    (forall j e, (i <= j < i + n)%nat -> (e <= 12)%nat -> (19 + 13 * j + e)%nat <> k) ->
+    read_stages (T:=T) b nk (set_line lines k l) n i = read_stages b nk lines n i.
+  Proof.
+    induction n as [|n IH]; intros i H; cbn [read_stages]; [reflexivity|].
+    rewrite read_stage_untouched by (intros e He; apply H; lia).
+    rewrite IH by (intros j e Hj He; apply H; lia). reflexivity.
+  Qed.
+
+  Lemma edit_stage_nop (o : cropow T) i (st : stage_rec T) :
+    (forall p, look_stage o p (Z.of_nat i + 1) = None) -> (forall p j, look_part o p (Z.of_nat i + 1) j = None) ->
+    edit_stage o i st = st.
+  Proof.
+    intros Hs Hp. destruct st as [x0 x1 x2 x3 x4 x5 x6 x7 x8 x9 x10 x11 x12]. unfold edit_stage. cbn [st_bbch st_tsum st_bas st_vschwell st_dayl st_dlbas st_dryswell
+      st_lukrit st_laifkt st_wgmax st_pro st_dead st_kc]. rewrite !Hs. cbn [orelse]. f_equal.
+    - apply mapi_id. intros j x _. now rewrite Hp.
+    - apply mapi_id. intros j x _. now rewrite Hp.
+  Qed.
+
+  Lemma mapi_edit_nop (o : cropow T) (sts : list (stage_rec T)) :
+    ow_stage o = [] -> ow_part o = [] -> mapi (edit_stage o) sts = sts.
+  Proof.
+    intros Hs Hp. apply mapi_id. intros i st _. apply edit_stage_nop.
+    - intros p. unfold look_stage. now rewrite Hs.
+    - intros p j. unfold look_part. now rewrite Hp.
+  Qed.
+
+  Ltac inv_bind H :=
+    repeat match type of H with
+           | match ?e with Some _ => _ | None => None end = Some _ =>
+               let E := fresh "E" in destruct e eqn:E; [|discriminate H]
+           | (if ?b then None else _) = Some _ =>
+               let E := fresh "C" in destruct b eqn:E; [discriminate H|]
+           | (let '(_, _) := ?e in _) = Some _ => destruct e
+           end.
+  Ltac rew_all := repeat match goal with E : ?x = Some _ |- context [?x] => rewrite E end.
+
+  (* base parameters written at column 65 *)
+  Theorem edit_base65_parses : forall p k lines (r : crop_rec T) text v l,
+    base_line p = Some k -> p <> YIFAK_ ->
+    convert_core lines = Some r -> ln lines k = Some l -> val_as_float text = Some v ->
+    convert_core (set_line lines k (edit_at65 l text)) = Some (edit_rec (single_base p v) r).
+  Proof.
+    intros p k lines r text v l Hk Hy H Hl Hv.
+    unfold convert_core in H. inv_bind H. inversion H; subst r; clear H.
+    unfold convert_core.
+    rewrite !ln_set_line.
+    destruct p; cbn in Hk; try discriminate; try congruence; inversion Hk; subst k; cbn [Nat.eqb];
+      match goal with E : ln lines ?k = Some ?x, Hl : ln lines ?k = Some l |- _ =>
+        first [constr_eq x l; fail 1 | rewrite Hl in E; inversion E; subst x] end;
+      repeat (progress (rew_all; cbn [option_map]; cbv beta iota));
+      rewrite ?edit_at65_reads_back by (eapply f65_len; eassumption);
+      repeat (progress (rew_all; cbv beta iota));
+      repeat match goal with C : ?b = false |- context [?b] => rewrite C end;
+      (rewrite read_stages_untouched by (intros j e _ _; lia));
+      repeat (progress (rew_all; cbv beta iota));
+      unfold edit_rec, single_base; cbn [look_base ow_base find pname_eqb fst snd option_map orelse
+        r_maxamax r_temptyp r_mintmp r_wumaxpf r_veloc r_ngefkt r_rga r_rgb r_suborgan r_ago r_yorgan r_yifak
+        r_initbiom r_initroot r_nrkom r_nnames r_dauerkult r_legum r_worg r_mairt r_kcini r_nrentw r_stages];
+      rewrite mapi_edit_nop by reflexivity; reflexivity.
+  Qed.
+
+  (* per-stage parameters (all written at column 65 of their own line) *)
+  Lemma look_single_stage p i v p' k :
+    look_stage (single_stage p i v) p' k = if pname_eqb p p' && (Z.of_nat i =? k) then Some v else None.
+  Proof. unfold look_stage, single_stage. cbn [ow_stage find fst snd]. destruct (pname_eqb p p' && (Z.of_nat i =? k)); reflexivity. Qed.
+
+  Lemma read_stage_edited b nk lines p d i0 l text v i st :
+    stage_off p = Some d -> ln lines (19 + 13 * i0 + d) = Some l -> val_as_float text = Some v ->
+    read_stage (T:=T) b nk lines i = Some st ->
+    read_stage b nk (set_line lines (19 + 13 * i0 + d) (edit_at65 l text)) i = Some (edit_stage (single_stage p (S i0) v) i st).
+  Proof.
+    intros Hd Hl Hv H.
+    assert (Dd : (1 <= d <= 12)%nat /\ d <> 10%nat /\ d <> 11%nat) by (destruct p; cbn in Hd; try discriminate; inversion Hd; lia).
+    destruct (Nat.eq_dec i i0) as [->|Hne].
+    - (* the edited stage *)
+      unfold read_stage in H. inv_bind H. inversion H; subst st; clear H.
+      unfold read_stage. rewrite !ln_set_line.
+      destruct p; cbn in Hd; try discriminate; inversion Hd; subst d;
+        eqbs;
+        match goal with E : ln lines ?k = Some ?x, Hl : ln lines ?k' = Some l |- _ =>
+          first [constr_eq x l; fail 1 | replace k' with k in Hl by lia; rewrite Hl in E; inversion E; subst x] end;
+        repeat (progress (rew_all; cbn [option_map]; cbv beta iota));
+        rewrite ?edit_at65_reads_back by (eapply f65_len; eassumption);
+        repeat (progress (rew_all; cbv beta iota));
+        unfold edit_stage; cbn [st_bbch st_tsum st_bas st_vschwell st_dayl st_dlbas st_dryswell st_lukrit st_laifkt
+                                 st_wgmax st_pro st_dead st_kc];
+        rewrite !look_single_stage; cbn [pname_eqb andb];
+        replace (Z.of_nat (S i0) =? Z.of_nat i0 + 1) with true by (symmetry; apply Z.eqb_eq; lia);
+        cbn [orelse]; f_equal; f_equal; symmetry; apply mapi_id; intros; reflexivity.
+    - (* any other stage *)
+      rewrite read_stage_untouched by (intros e He; nia). rewrite H. f_equal. symmetry. apply edit_stage_nop.
+      + intros p'. rewrite look_single_stage.
+        replace (Z.of_nat (S i0) =? Z.of_nat i + 1) with false by (symmetry; apply Z.eqb_neq; lia).
+        now rewrite andb_false_r.
+      + intros p' j. reflexivity.
+  Qed.
+
+  Lemma read_stages_edited b nk lines p d i0 l text v n : forall i sts,
+    stage_off p = Some d -> ln lines (19 + 13 * i0 + d) = Some l -> val_as_float text = Some v ->
+    read_stages (T:=T) b nk lines n i = Some sts ->
+    read_stages b nk (set_line lines (19 + 13 * i0 + d) (edit_at65 l text)) n i =
+      Some (mapi_aux (edit_stage (single_stage p (S i0) v)) i sts).
+  Proof.
+    induction n as [|n IH]; intros i sts Hd Hl Hv H; cbn [read_stages] in *.
+    - inversion H. reflexivity.
+    - destruct (read_stage b nk lines i) as [st|] eqn:E1; [|discriminate].
+      destruct (read_stages b nk lines n (S i)) as [r|] eqn:E2; [|discriminate].
+      inversion H; subst sts.
+      rewrite (read_stage_edited b nk lines p d i0 l text v i st Hd Hl Hv E1).
+      rewrite (IH (S i) r Hd Hl Hv E2). reflexivity.
+  Qed.
+
+  Theorem edit_stage65_parses : forall p d i0 lines (r : crop_rec T) text v l,
+    stage_off p = Some d ->
+    convert_core lines = Some r -> ln lines (19 + 13 * i0 + d) = Some l -> val_as_float text = Some v ->
+    convert_core (set_line lines (19 + 13 * i0 + d) (edit_at65 l text)) = Some (edit_rec (single_stage p (S i0) v) r).
+  Proof.
+    intros p d i0 lines r text v l Hd H Hl Hv.
+    unfold convert_core in H. inv_bind H. inversion H; subst r; clear H.
+    unfold convert_core. rewrite !ln_set_line. eqbs.
+    repeat (progress (rew_all; cbv beta iota)).
+    repeat match goal with C : ?b = false |- context [?b] => rewrite C end.
+    match goal with E : read_stages false _ lines _ 0 = Some _ |- _ =>
+      rewrite (read_stages_edited _ _ _ p d i0 l text v _ _ _ Hd Hl Hv E) end.
+    unfold edit_rec, single_stage at 1 2 3 4 5 6 7. cbn [look_base ow_base find option_map orelse
+        r_maxamax r_temptyp r_mintmp r_wumaxpf r_veloc r_ngefkt r_rga r_rgb r_suborgan r_ago r_yorgan r_yifak
+        r_initbiom r_initroot r_nrkom r_nnames r_dauerkult r_legum r_worg r_mairt r_kcini r_nrentw r_stages].
+    reflexivity.
+  Qed.
+
+  (* ---- end to end on the classic file: one override entry, its decimal text written into the file ---- *)
+  Lemma bbch_ok_set_line lines k l n :
+    (forall i, (19 + 13 * i)%nat <> k) -> bbch_ok (T:=T) lines n -> bbch_ok (T:=T) (set_line lines k l) n.
+  Proof.
+    intros Hk Hb i h Hi Hh. rewrite ln_set_line in Hh.
+    replace (Nat.eqb (19 + 13 * i) k) with false in Hh by (symmetry; apply Nat.eqb_neq; apply Hk).
+    exact (Hb i h Hi Hh).
+  Qed.
+
+  Lemma stale_ok_set_line lines k l s0 : k <> 8%nat -> stale_ok (T:=T) lines s0 -> stale_ok (set_line lines k l) s0.
+  Proof.
+    intros Hk Hs l04 ng ta tb torg H1 H2 H3. rewrite ln_set_line in H1.
+    replace (Nat.eqb 8 k) with false in H1 by (symmetry; apply Nat.eqb_neq; lia).
+    exact (Hs l04 ng ta tb torg H1 H2 H3).
+  Qed.
+
+  Theorem classic_stage_override_commutes : forall cont lines lines' (r : crop_rec T) s0 s p d i0 text v,
+    convert_core lines = Some r -> r_nrkom r <= 5 -> r_nrentw r <= 10 -> ago_ok (r_nrkom r) (r_ago r) = true ->
+    bbch_ok lines (ztn (r_nrentw r)) -> stale_ok lines s0 ->
+    stage_off p = Some d -> edit_lines lines p (S i0) 0 text = Some lines' -> val_as_float text = Some v ->
+    state_of_classic cont lines s0 = Some s ->
+    valid (single_stage p (S i0) v) (NRKOM s) (NRENTW s) = true ->
+    state_of_classic cont lines' s0 = Some (apply cont (single_stage p (S i0) v) s).
+  Proof.
+    intros cont lines lines' r s0 s p d i0 text v P Hk He Ha Hb Hs Hd Hed Hv L V.
+    assert (Dd : (1 <= d <= 12)%nat) by (destruct p; cbn in Hd; try discriminate; inversion Hd; lia).
+    unfold edit_lines in Hed. rewrite Hd in Hed.
+    replace (base_line p) with (@None nat) in Hed by (destruct p; cbn in Hd; try discriminate; reflexivity).
+    replace (19 + 13 * (S i0 - 1) + d)%nat with (19 + 13 * i0 + d)%nat in Hed by lia.
+    destruct (nth_error lines (19 + 13 * i0 + d)) as [l|] eqn:El; [|discriminate]. inversion Hed; subst lines'.
+    eapply (override_commutes_classic_lemma cont lines _ r s0 s); eauto.
+    - eapply edit_stage65_parses; eauto.
+    - apply bbch_ok_set_line; [intros i; lia|assumption].
+    - apply stale_ok_set_line; [lia|assumption].
+  Qed.
+
+  Theorem classic_base_override_commutes : forall cont lines lines' (r : crop_rec T) s0 s p text v,
+    convert_core lines = Some r -> r_nrkom r <= 5 -> r_nrentw r <= 10 -> ago_ok (r_nrkom r) (r_ago r) = true ->
+    bbch_ok lines (ztn (r_nrentw r)) -> stale_ok lines s0 ->
+    base_line p <> None -> p <> YIFAK_ -> edit_lines lines p 0 0 text = Some lines' -> val_as_float text = Some v ->
+    state_of_classic cont lines s0 = Some s ->
+    valid (single_base p v) (NRKOM s) (NRENTW s) = true ->
+    state_of_classic cont lines' s0 = Some (apply cont (single_base p v) s).
+  Proof.
+    intros cont lines lines' r s0 s p text v P Hk He Ha Hb Hs Hbl Hy Hed Hv L V.
+    destruct (base_line p) as [k|] eqn:Ek; [|congruence].
+    assert (Kk : (k <= 12)%nat /\ k <> 8%nat) by (destruct p; cbn in Ek; try discriminate; inversion Ek; lia).
+    unfold edit_lines in Hed. rewrite Ek in Hed.
+    destruct (nth_error lines k) as [l|] eqn:El; [|discriminate].
+    replace (match p with YIFAK_ => edit_at66 l text | _ => edit_at65 l text end) with (edit_at65 l text) in Hed
+      by (destruct p; congruence).
+    inversion Hed; subst lines'.
+    eapply (override_commutes_classic_lemma cont lines _ r s0 s); eauto.
+    - eapply edit_base65_parses; eauto.
+    - apply bbch_ok_set_line; [intros i; lia|assumption].
+    - apply stale_ok_set_line; [lia|assumption].
+  Qed.
+End Parse.
+
 Lemma sample_override :
   exists r s o o', convert (T:=float) sample_lines = Some r /\
     state_of_yaml false r zero_state = Some s /\
